@@ -39,6 +39,8 @@ def main():
             res["replay_failed"] = str((d.get("detail") or {}).get("failed"))[:400]
     finally:
         shutil.rmtree(scratch, ignore_errors=True)
+        # the check regenerated the translated models from the patched copy: put the committed ones (translated from /repo) back
+        subprocess.run(["git", "-C", ROOT, "checkout", "--", "lean/LK/Generated"], capture_output=True)
     print(json.dumps(res, indent=1))
 if __name__ == "__main__":
     main()
